@@ -80,15 +80,16 @@ Definition set_gate s x :=
   {| s_kind := s_kind s; s_mode := s_mode s; cap := cap s; next := next s; gate := x;
      transit := transit s; ready := ready s; putq := putq s; putres := putres s; getq := getq s; getres := getres s |}.
 
-(* admission test of _do_reserve_put.  Belt stores: when `items` is non-empty the spacing test
-   (our [gate]) must hold as well; when `items` is empty only the capacity test is made. *)
+(* admission test of _do_reserve_put.  Belt stores: one item enters at a time (no grant while a
+   granted space reservation is unused), and the time- and mode-dependent tests (spacing against
+   the last item on a moving belt; "nothing is admitted while the head of a non-accumulating belt
+   waits") are the boolean [gate], set from outside. *)
 Definition used (s : store) : nat := length (putres s) + length (transit s) + length (ready s).
 Definition admit_put (s : store) : bool :=
   (used s <? cap s) &&
-  match s_kind s, transit s with
-  | KBelt, _ :: _ => gate s
-  | KSlot, _ :: _ => gate s
-  | _, _ => true
+  match s_kind s with
+  | KBelt | KSlot => (length (putres s) =? 0) && gate s
+  | _ => true
   end.
 Definition admit_get (s : store) : bool := length (getres s) <? length (ready s).
 
